@@ -4,6 +4,7 @@ import MagpyVerif.Model.TrimeshBatch
 import MagpyVerif.Model.TrimeshSum
 import MagpyVerif.Model.TrimeshInside
 import Driver.KernFam
+import Driver.MeshIntersectFam
 
 namespace Driver.TrimeshFam
 open MagpyVerif MagpyVerif.Trimesh MagpyVerif.Kern Driver Driver.KernFam
@@ -72,6 +73,8 @@ def run : P String := do
       let nf ← nat
       let fs ← many nf (do pure ((← v3), (← v3), (← v3)))
       pure (out (startPointOutside (meshVerts fs)))
+  | "segfacet" => MeshIntersectFam.segfacet
+  | "selfint" => MeshIntersectFam.selfint
   | t => throw s!"unknown trimesh command {t}"
 
 def step (line : String) : String :=
